@@ -275,12 +275,12 @@ PROPS['C09'] = {
 
 PROPS['C04'] = {
     'level': 'other',
-    'technique': 'Lean 4 guard lemmas for the repository-specific unwrap()/panic!/arithmetic sites (manifest skip/take parity so FileListIter and iter_uris cannot fail, encode_verify never reaches its panic!, asn_count total and saturating, TLV reader partitions its input) + structure-aware differential fuzzing of all 19 decoding entry points (strict and relaxed) with every accessor and the re-encoding, under catch_unwind, a hang watchdog and a counting allocator, oracle evaluated by the Lean driver',
+    'technique': 'Lean 4 model of the whole certificate decoder on octets (Model/CertDer.lean: Cert::decode, TbsCert::from_constructed with all extension readers, names, keys, bcder skip machine) compared with the library on accept/reject and every field; Lean 4 guard lemmas for the repository-specific unwrap()/panic!/arithmetic sites (manifest skip/take parity so FileListIter and iter_uris cannot fail, encode_verify never reaches its panic!, asn_count total and saturating, TLV reader partitions its input) + structure-aware differential fuzzing of all 19 decoding entry points (strict and relaxed) with every accessor and the re-encoding, under catch_unwind, a hang watchdog and a counting allocator, oracle evaluated by the Lean driver',
     'claim': 'Not a proof of the whole statement: panic-freedom and resource use of bcder, quick-xml and aws-lc on arbitrary octets cannot be carried by the model. Proved (Lean 4, on the models tied to the code by C14/C02/C03): a decoded manifest can always be iterated and resolved (the two unwrap() sites), SignedAttrs::encode_verify cannot reach its panic! for any decoded object, AsBlocks::asn_count is total and saturating, every value read by the TLV layer lies inside its input (strictly shorter nested inputs). Explored: every entry point x {valid objects of every type from an independent encoder, from the library builders and from test-data} x 16 structure-preserving mutations at TLV boundaries (tag, constructed bit, length +-1/zero/huge/indefinite/non-minimal, value bits, fill, truncation, duplication, deletion, splice from other objects) + raw damage + random octets + nesting to depth 2000, each followed by every accessor/iterator and the re-encoding; peak heap must stay below 64*len + 1 MiB (counted by the allocator, machine-independent), hangs caught by the watchdog.',
     'note': 'One finding is recorded as known (see KNOWN_FINDINGS.txt): re-encoding any value decoded in relaxed mode panics inside bcder (Mode::Der requested for Mode::Ber captures). Time is bounded only by the generous watchdog, never by a wall-clock threshold.',
     'shards': {'quick': 8, 'thorough': 16},
     'budget': {'quick': 900, 'thorough': 10800},
-    'rule': '37 valid seed objects (certificates of every kind incl. router/ECDSA, public keys, ROA, ASPA, manifest, generic signed object, CRL, CSRs, identity certificates, signed messages, TAL; independent encoder + library builders + /repo/test-data) x 400 (thorough 4000) mutants each, every valid object through every other entry point, 40 (400) random inputs and 9 nesting bombs per entry point, indefinite and 4 GiB lengths, empty input, 400 (4000) TAL text mutations.',
+    'rule': 'certd: 8 certificates (TA with notify, trimming CA, EE, ECDSA router, four from test-data) x (about 350 hand-made variations of every extension reader, the names, algorithm identifiers, validity, key and envelope + the systematic boundary contents + 300 (thorough 3000) tree-aware/raw mutants), each decoded by Cert::decode and by the Lean decoder CertDer.decodeCert, compared on accept/reject, 22 fields and the ten inspect_* verdicts. dec: 37 valid seed objects (certificates of every kind incl. router/ECDSA, public keys, ROA, ASPA, manifest, generic signed object, CRL, CSRs, identity certificates, signed messages, TAL; independent encoder + library builders + /repo/test-data) x 400 (thorough 4000) mutants each, every valid object through every other entry point, 40 (400) random inputs and 9 nesting bombs per entry point, indefinite and 4 GiB lengths, empty input, 400 (4000) TAL text mutations.',
     'trusted_base': ['bcder / aws-lc / base64 internals (explored, not modelled)', 'the counting allocator and catch_unwind of the harness'],
     'assumptions': ['a stack overflow or abort would kill the harness process and is reported as a crashed shard'],
 }
